@@ -235,9 +235,16 @@ EXTRA_TEMPLATES = [
     # variable is evaluated against (it is evaluated after the arguments are pushed in include) must not depend on the API
     ("bindshadow", "{% include 'p' with s as x, s: 'special' %}|{% include 'p' for ys as x, ys: xs %}|{% include 'p' with x, x: s %}|"
                    "{% render 'p' with s as x, s: 'special' %}|{% render 'p' for ys as x, ys: xs %}|{% include 'dir/q' with x as q, x: 'K' %}"),
+    # nested repetition through every construct that carries the loop count into a copy of the context: under a loop limit
+    # (configuration loop-limit) both APIs must raise, or both complete
+    ("looplimitnest", "{% macro m %}{% for j in (1..3) %}.{% endfor %}{% endmacro %}{% for i in (1..3) %}{% call m %}{% endfor %}"),
+    ("looplimitnest2", "{% for i in (1..3) %}{% render 'loop3' %}{% endfor %}"),
+    ("looplimitnest3", "{% for i in (1..3) %}{% include 'loop3' %}{% endfor %}"),
+    ("looplimitnest4", "{% tablerow i in (1..3) %}{% for j in (1..3) %}.{% endfor %}{% endtablerow %}"),
+    ("looplimitnest5", "{% render 'loop3' for ys %}|{% include 'loop3' for ys %}"),
     ("stringends", "{{ s.first }}|{{ s.last }}|{{ s.size }}|{{ s[0] }}|{{ s[-1] }}|{{ e.first }}|{{ e.last }}|{{ ys.first }}|{{ ys.last }}|{{ n.first }}{{ n.last }}"),
 ]
-MORE_PARTIALS = {"selfinc": "{% include 'selfinc' %}"}
+MORE_PARTIALS = {"selfinc": "{% include 'selfinc' %}", "loop3": "{% for j in (1..3) %}.{% endfor %}"}
 
 CLASS_FLAGS = ["keyword_assignment", "logical_not_operator", "logical_parentheses", "shorthand_indexes",
                "string_first_and_last", "string_sequences", "suppress_blank_control_flow_blocks", "ternary_expressions"]
